@@ -264,6 +264,13 @@ def psi_tables(ctx):
             lines = {"SOME": "0", "FULL": "1"}
         else:
             lines = {"?": t_}
+    # the default + override spelling: `idx = 0; if (type == FULL) idx = 1;` (the enumeration has exactly these two values)
+    init0_, v0_ = local_init(f, "pressure_line_index", must=False)
+    t0_ = f.text(init0_) if v0_ is not None and init0_ is not None and init0_ >= 0 else None
+    if lines == {"FULL": "1"} and t0_ == "0":
+        lines = {"SOME": "0", "FULL": "1"}
+    elif lines == {"SOME": "0"} and t0_ == "1":
+        lines = {"SOME": "0", "FULL": "1"}
     ctx.check(lines == {"SOME": "0", "FULL": "1"}, "psi:line-of-type", "switch_table", f.loc(), "'some' is the first line, 'full' the second", "line selection is %s" % lines)
     KEYS = ["avg10", "avg60", "avg300", "total"]
     n = 0
